@@ -89,9 +89,9 @@ def expected_on(v, variants):
                 return ([("push", VOWEL_OF[_pending_state(v, variants)])] if av else []) + [("pending", None), ("recurse",)]
             return c12.kar_rules(v)
         if need(t_and(v.char_is(HASANTA), v.rmc_is(HASANTA)), "second hasanta"):
-            return [("push", c12.ZWNJ)]
+            return [("push", c12.ZWNJ)] + c12.REST
         if need(t_and(v.char_is(LENGTH_MARK), v.rmc_is(HASANTA)), "AU length mark after hasanta"):
-            return [("pop",), ("push", c12.OU)]
+            return [("pop",), ("push", c12.OU)] + c12.REST
         if need(t_and(v.char_is(HASANTA), lsk_rmc()), "a hasanta / fola value after a left-standing sign (it slips under the sign)"):
             single = need(v.T("value_count_eq", 1), "whether the value is a lone hasanta")
             if single:
